@@ -16,7 +16,7 @@
    Everything else of the property's grammar is covered by the correspondence check only
    (checks/c06.py: a test, labelled as such in the manifest). *)
 From GoldV Require Import Base Tokens Keywords Lexer AstKinds Tree Strings PComb Grammar Ladder
-                          RTComb LadderProofs LadderNames ExprRT RangeEnc StmtRT DeclRT.
+                          RTComb LadderProofs LadderNames ExprRT Encase RangeEnc TypeRT StmtRT DeclRT FuelIndep FileRT EnclRT.
 From Coq Require Import Lia.
 
 (* ---------- 1. the generated ladder ---------- *)
@@ -181,11 +181,42 @@ Proof. exact innermost_is_ident. Qed.
 Theorem C06_expr_within_span : forall f ts n, GExpr f ts n -> tord ts -> range_wf (nrange n) /\ within ts n.
 Proof. exact expr_within_span. Qed.
 
-(* ---------- 5. statements, declarations, files ---------- *)
+(* range enclosure beyond expressions.  [Ord lo ts hi]: the tokens ts are lexer-ordered (tord) and lie between the
+   positions lo and hi; [IE lo hi n]: the node n lies in [lo, hi], its range is well formed, and every node of the tree
+   n encloses its children ([enc_tree]) *)
+Theorem C06_type_encloses : forall f ts n lo hi, GType f ts n -> Ord lo ts hi -> IE lo hi n.
+Proof. exact type_enc. Qed.
 
-(* every statement derivable at level f (assignment, expression statement, return, exit/break/continue,
-   comment, var with a basic type, while, loop, repeat-until, for (to/downto, optional step), if-elseif-else; bodies: any sequences of
-   such statements, nested to any depth) is parsed by g_stmt (gram f) into its tree *)
+Theorem C06_stmt_encloses : forall f ts n lo hi, GStmt f ts n -> Ord lo ts hi -> IE lo hi n.
+Proof. exact stmt_enc. Qed.
+
+Theorem C06_decl_encloses : forall fuel ts n lo hi, Decl fuel ts n -> Ord lo ts hi -> IE lo hi n.
+Proof. exact Decl_enc. Qed.
+
+(* whole files: for lexer-ordered tokens, every node of every declaration of a derivable file (types, parameters,
+   statements nested to any depth, expressions) encloses its children *)
+Theorem C06_file_encloses : forall fuel ts ns, Decls fuel ts ns -> tord ts -> Forall enc_tree ns.
+Proof. exact file_encloses. Qed.
+
+(* ---------- 5. types, statements, declarations, files ---------- *)
+
+(* every type form (basic, sized, enum, refto / listof with options and inverse, literal range, set,
+   pointer, instanceof, array / sequence with one or two indexes, record with optional parent and nested
+   field types, procedure and function types) derivable at level f is parsed by g_type (gram f) *)
+Theorem C06_type_roundtrip : forall f ts n more,
+  GType f ts n -> tfollow more -> Parses (g_type (gram f)) (ts ++ more) more n.
+Proof. exact gram_type_rt. Qed.
+
+(* parameter lists: absent, empty, typed / untyped parameters with const / var / inout modes *)
+Theorem C06_params_roundtrip : forall f ts n more,
+  GParams f ts n -> nostart [TOBracket] more ->
+  Parses (parse_parameter_declaration_list (g_type (gram f))) (ts ++ more) more n.
+Proof. exact gram_params_rt. Qed.
+
+(* every statement derivable at level f: assignment, expression statement, return, exit/break/continue,
+   comment, var (any type, optional absolute), const / uses / type inside a body, while, loop, repeat-until,
+   for (to/downto, optional step), foreach (optional downto / using), switch with when-blocks (value lists,
+   ranges) and else, if-elseif-else; bodies: any sequences of such statements, nested to any depth *)
 Theorem C06_stmt_roundtrip : forall f ts n more,
   GStmt f ts n -> follow_ok ts (hd_ty more) -> Parses (g_stmt (gram f)) (ts ++ more) more n.
 Proof. exact gram_stmt_rt. Qed.
@@ -195,30 +226,46 @@ Theorem C06_decl_roundtrip : forall fuel ts n more,
   Decl fuel ts n -> dfollow_ok ts (hd_ty more) -> TopStep fuel (ts ++ more) more n.
 Proof. exact decl_parses. Qed.
 
-(* whole files of the proved sub-grammar:
-     class header (with / without parent), module header, uses list, constants, fields of a basic
-     type, comments, procedures and functions WITHOUT parameter list and modifiers, whose bodies
-     are sequences of: assignments (= += -= :=) to dot chains, expression statements (dot chains with
-     calls / array accesses, postfix ++ --), return, exit / break / continue, comments, var with a basic
-     type, while / loop / repeat-until / for / if-elseif-else blocks (nested to any depth); expressions: all
+(* whole files of the proved grammar ([Decls]):
+     class header (with / without parent), module header, uses list, constants (optional multilang),
+     type declarations with every type form, fields (optional annotation, memory, any type, member
+     modifiers, absolute), comments, procedures and functions with plain or method#event names,
+     parameter lists (typed / untyped parameters, const / var / inout), method modifiers (private,
+     protected, final, override, forward, external '..'; forward / external methods have no body), whose
+     bodies are sequences of the statements of C06_stmt_roundtrip (nested to any depth); expressions: all
      operator levels, parentheses, prefix / postfix operators, dot chains, calls, array accesses, set
      literals, literals.
-   NOT proved, covered by the correspondence check only: parameters, modifiers, forward / external,
-   method#event names, type declarations and all non-basic type forms, memory / absolute / multilang,
-   annotations, foreach / switch / OQL statements, const / uses / type inside bodies.
-   parse_gold (memoisation off, any fuel above the derivation level; default_fuel is above it whenever
-   the level is at most the number of tokens + 1) returns exactly the derived declarations, consumes
-   every token and reports no diagnostic. *)
+   NOT proved, covered by the correspondence check only: OQL select / fetch statements, annotations in
+   front of declarations other than fields, composed types (T + (a, b)).
+   The un-memoised parser at any fuel above the derivation level: *)
 Theorem C06_file_roundtrip_partial : forall f fuel ts ns,
   Decls f ts ns -> (f < fuel)%nat ->
   exists c, parse_gold_with false fuel ts = (Ok [] (mk_root ns), c) /\ cdiags c = [].
 Proof. exact file_roundtrip. Qed.
 
-(* with the fuel parse_gold itself uses *)
 Theorem C06_file_roundtrip_default_fuel : forall f ts ns,
   Decls f ts ns -> (f <= S (length ts))%nat ->
   exists c, parse_gold_with false (default_fuel ts) ts = (Ok [] (mk_root ns), c) /\ cdiags c = [].
 Proof. intros f ts ns H Hle. apply (file_roundtrip f); [exact H|]. unfold default_fuel. lia. Qed.
+
+(* the outcome of parse_gold_with does not depend on the fuel (above the number of tokens) nor on the
+   memoisation switch: same result, same set of diagnostics (C07's simulation at two fuel levels) *)
+Theorem C06_parse_gold_fuel_independent : forall m m' F F' ts, (length ts < F)%nat -> (length ts < F')%nat ->
+  fst (parse_gold_with m F ts) = fst (parse_gold_with m' F' ts) /\
+  forall d, In d (cdiags (snd (parse_gold_with m F ts))) <-> In d (cdiags (snd (parse_gold_with m' F' ts))).
+Proof. exact parse_gold_fuel_indep. Qed.
+
+(* hence, with NO hypothesis on the derivation level: memoisation on or off, any fuel above the number of
+   tokens -- and in particular the entry point the code runs -- a derivable file parses to exactly its
+   declarations, every token consumed, zero diagnostics *)
+Theorem C06_file_roundtrip_any : forall f ts ns, Decls f ts ns ->
+  forall memo fuel, (length ts < fuel)%nat ->
+    fst (parse_gold_with memo fuel ts) = Ok [] (mk_root ns) /\ cdiags (snd (parse_gold_with memo fuel ts)) = [].
+Proof. exact file_roundtrip_any. Qed.
+
+Theorem C06_file_roundtrip : forall f ts ns, Decls f ts ns ->
+  fst (parse_gold ts) = Ok [] (mk_root ns) /\ cdiags (snd (parse_gold ts)) = [].
+Proof. exact file_roundtrip_parse_gold. Qed.
 
 (* ---------- non-vacuity ---------- *)
 
@@ -272,6 +319,47 @@ Proof.
     + repeat constructor; rewrite ?Hwt, ?Hc, ?Hx, ?Heq, ?Hy, ?Hew; simpl; intuition discriminate.
   - split; [simpl; unfold is_comment; rewrite Hpt; simpl; tauto|].
     intro X. simpl in X. unfold is_comment in X. rewrite Hct in X. discriminate.
+Qed.
+
+(* the newly covered constructs are derivable, for ANY tokens of these types:
+     type tRec : record (tBase) f : refto [A] tOther inverse Back endrecord *)
+Example C06_record_type_derivable : forall rk o p c f col rt ob a cb t ik iv er,
+  tty rk = TRecord -> tty o = TOBracket -> tty p = TIdentifier -> tty c = TCBracket -> tty f = TIdentifier ->
+  tty col = TColon -> tty rt = TRefTo -> tty ob = TOSqrBracket -> tty a = TIdentifier -> tty cb = TCSqrBracket ->
+  tty t = TIdentifier -> tty ik = TInverse -> tty iv = TIdentifier -> tty er = TEndRecord ->
+  GType 2 [rk; o; p; c; f; col; rt; ob; a; cb; t; ik; iv; er]
+        (mk_type_record rk (Some p) [mk_record_field f (mk_type_ref rt [a] t (Some iv))] er).
+Proof.
+  intros. apply (TF_record (GType 1) rk [o; p; c] (Some p) [f; col; rt; ob; a; cb; t; ik; iv] _ er); auto.
+  - apply RP_some; auto.
+  - apply (F_cons (GType 1) f col [rt; ob; a; cb; t; ik; iv] _ [] []); auto; [|apply F_nil].
+    apply (TF_ref (GType 0) rt [ob; a; cb] [a] t [ik; iv] (Some iv)); auto.
+    + rewrite H5. left. reflexivity.
+    + apply (RO_some ob [a] [a] cb); auto. apply TL_one. assumption.
+    + apply IV_some; auto.
+Qed.
+
+(*   proc Init#Clicked(var a : int4, b) private forward      (no body) *)
+Example C06_method_header_derivable : forall fuel pt nm pd ev ob vk a col ty cm b cb pr fw,
+  tty pt = TProc -> tty nm = TIdentifier -> tty pd = TPound -> tty ev = TIdentifier -> tty ob = TOBracket ->
+  tty vk = TVar -> tty a = TIdentifier -> tty col = TColon -> tty ty = TIdentifier -> tty cm = TComma ->
+  tty b = TIdentifier -> tty cb = TCBracket -> tty pr = TPrivate -> tty fw = TForward ->
+  Decl fuel [pt; nm; pd; ev; ob; vk; a; col; ty; cm; b; cb; pr; fw]
+       (mk_proc_node pt (mk_event_name nm ev)
+          (Some (mk_param_list ob [mk_param (Some vk) a (Some (mk_type_basic ty)); mk_param None b None] cb))
+          (method_mods_info [pr; fw]) None).
+Proof.
+  intros fuel pt nm pd ev ob vk a col ty cm b cb pr fw Hpt Hnm Hpd Hev Hob Hvk Ha Hcol Hty Hcm Hb Hcb Hpr Hfw.
+  assert (forall t, tty t = TIdentifier -> In (tty t) ident_types) as Hid by (intros t H; rewrite H; left; reflexivity).
+  apply (D_proc_nobody fuel pt [nm; pd; ev] _ [ob; vk; a; col; ty; cm; b; cb] _ [pr; fw] [pr; fw]); auto.
+  - apply MN_event; auto.
+  - apply (PL_some (GType (S fuel)) ob [vk; a; col; ty; cm; b] _ cb Hob); [|exact Hcb].
+    apply (Args_cons TComma _ [vk; a; col; ty] _ cm [b] _); [| exact Hcm |].
+    + apply (Pm_typed (GType (S fuel)) (Some vk) a col [ty]); auto; [simpl; rewrite Hvk; simpl; tauto|].
+      apply TF_basic. exact Hty.
+    + apply Args_one. apply (Pm_untyped (GType (S fuel)) None b); [exact I|auto].
+  - apply Md_mod; [rewrite Hpr; simpl; tauto|]. apply Md_fwd; [exact Hfw|apply Md_nil].
+  - unfold method_mods_info, has_method_body, member_flags. cbn [existsb]. rewrite Hpr, Hfw. vm_compute. reflexivity.
 Qed.
 
 Definition txt (s : list N) : list tok := fst (lex s).
@@ -346,11 +434,22 @@ Print Assumptions C06_range_encloses.
 Print Assumptions C06_binop_range.
 Print Assumptions C06_innermost_is_ident.
 Print Assumptions C06_expr_within_span.
+Print Assumptions C06_type_encloses.
+Print Assumptions C06_stmt_encloses.
+Print Assumptions C06_decl_encloses.
+Print Assumptions C06_file_encloses.
+Print Assumptions C06_type_roundtrip.
+Print Assumptions C06_params_roundtrip.
 Print Assumptions C06_stmt_roundtrip.
 Print Assumptions C06_decl_roundtrip.
 Print Assumptions C06_file_roundtrip_partial.
 Print Assumptions C06_file_roundtrip_default_fuel.
+Print Assumptions C06_parse_gold_fuel_independent.
+Print Assumptions C06_file_roundtrip_any.
+Print Assumptions C06_file_roundtrip.
 Print Assumptions C06_expr_derivable.
+Print Assumptions C06_record_type_derivable.
+Print Assumptions C06_method_header_derivable.
 Print Assumptions C06_file_derivable.
 Print Assumptions C06_lexed_tokens_ordered.
 Print Assumptions C06_lexed_example.
